@@ -524,6 +524,78 @@ theorem fixW_std (cs : List Char) (h : NoNul cs) (off size : Nat) (junk : List I
   rw [fixWLoop_eq off size _ n 0 0 (by omega) (by omega), utf16toUtf8_std cs h junk n hn]
   rfl
 
+/-- the read-only wide view through a `const SafeString` followed by its destructor's `fixW()`: for every byte
+    string the view is produced inside the buffer and the in-place conversion back never faults -/
+theorem safe_const_safe (s : List UInt8) : ∃ w out, safeConstOp s = some (w, .ok out) := by
+  obtain ⟨_, _, _, ⟨units, hd, hl⟩⟩ := utf_safe_string s
+  have hfit : wideOffset s.length + 4 * (units.map Int.ofNat ++ [0]).length
+      ≤ capOf (sizeResize (sizeInit s.length) (datawNeed s.length)) := by
+    have h1 := capOf_resize_ge (sizeInit s.length) (datawNeed s.length)
+    have h2 := wideOffset_le s.length
+    have h3 := wideRoom_ge s.length
+    have hu : units.length ≤ s.length := by
+      obtain ⟨_, ⟨o, ho, hol⟩, _, _⟩ := utf_safe_readers (mem s) s.length (hasNul_mem s)
+      have : o = units := by unfold dataw at hd; rw [ho] at hd; exact Option.some.inj hd
+      subst this
+      have := strlen_mem s
+      omega
+    unfold datawNeed at h1 ⊢
+    simp only [List.length_append, List.length_map, List.length_cons, List.length_nil]
+    omega
+  obtain ⟨o, _, h2, _⟩ := fixW_in_place_safe (wideOffset s.length) _ (units.map Int.ofNat ++ [0])
+    (capOf (sizeResize (sizeInit s.length) (datawNeed s.length))) (by simp [hasZero]) hfit
+  exact ⟨wcs units, o.takeWhile (· != 0), by simp only [safeConstOp, hd, Option.map_some, h2]; rfl⟩
+
+theorem utf8_no_zero (cs : List Char) (h : NoNul cs) : ∀ b ∈ Std.utf8 cs, b ≠ 0 := by
+  intro b hb
+  simp only [Std.utf8, List.mem_flatMap] at hb
+  obtain ⟨c, hc, hb⟩ := hb
+  have he := enc_char c (h c hc)
+  generalize c.toNat = v at he
+  generalize String.utf8EncodeChar c = bs at he hb
+  cases he with
+  | one v h0 hv =>
+    simp only [List.mem_cons, List.not_mem_nil, or_false] at hb; subst hb
+    exact ofNat_ne_zero (by omega) h0
+  | two a r ha hr hv =>
+    simp only [List.mem_cons, List.not_mem_nil, or_false] at hb
+    rcases hb with rfl | rfl <;> exact ofNat_ne_zero (by omega) (by omega)
+  | three a b' r ha hb' hr hv =>
+    simp only [List.mem_cons, List.not_mem_nil, or_false] at hb
+    rcases hb with rfl | rfl | rfl <;> exact ofNat_ne_zero (by omega) (by omega)
+  | four a b' c' r ha hb' hc' hr hv =>
+    simp only [List.mem_cons, List.not_mem_nil, or_false] at hb
+    rcases hb with rfl | rfl | rfl | rfl <;> exact ofNat_ne_zero (by omega) (by omega)
+
+theorem takeWhile_ne_zero_u8 (l : List UInt8) (h : ∀ b ∈ l, b ≠ 0) : l.takeWhile (· != 0) = l := by
+  induction l with
+  | nil => rfl
+  | cons a t ih =>
+    have ha : a ≠ 0 := h a (by simp)
+    simp only [List.takeWhile_cons, bne_iff_ne, ne_eq, ha, not_false_eq_true, if_true]
+    rw [ih (fun u hu => h u (by simp [hu]))]
+
+/-- on valid text the view is the standard UTF-16 and the String is unchanged afterwards -/
+theorem safe_const_std (cs : List Char) (h : NoNul cs) :
+    safeConstOp (Std.utf8 cs) = some (Std.utf16 cs, .ok (Std.utf8 cs)) := by
+  have hlen := utf8_length_ge cs h
+  have h1 := capOf_resize_ge (sizeInit (Std.utf8 cs).length) (datawNeed (Std.utf8 cs).length)
+  have h2 := wideOffset_le (Std.utf8 cs).length
+  have hu : (Std.utf16 cs).length ≤ (Std.utf8 cs).length := by
+    obtain ⟨_, ⟨o, ho, hol⟩, _, _⟩ := utf_safe_readers (mem (Std.utf8 cs)) (Std.utf8 cs).length (hasNul_mem _)
+    have hd := utf8_utf16_std cs h
+    unfold dataw at hd; rw [ho] at hd
+    have : o = Std.utf16 cs := Option.some.inj hd
+    subst this
+    have := strlen_mem (Std.utf8 cs)
+    omega
+  simp only [datawNeed] at h1 ⊢
+  simp only [safeConstOp, datawNeed, utf8_utf16_std cs h, Option.map_some, wcs]
+  rw [takeWhile_ne_zero_nat _ (utf16_ne_zero cs h)]
+  rw [fixW_std cs h _ _ [] _ (by right; omega)
+    (by simp only [List.length_append, List.length_map, List.length_cons, List.length_nil]; omega)]
+  simp only [Except.map, takeWhile_ne_zero_u8 _ (utf8_no_zero cs h)]
+
 /-! ## the unit budget `n` of the free converters: exactly the first `n` characters -/
 
 theorem budget_utf8toUtf32 (cs : List Char) (h : NoNul cs) (junk : List UInt8) (n : Int) (hn : 0 < n) :
@@ -599,6 +671,10 @@ example : (match fixWLoop 0 64 [0x20AC, 0x20AC, 0] 0 5 64 with | .error f => f =
   decide +kernel
 example : (match fixWLoop 4 12 [0x41, 0x42] 0 0 12 with | .error f => f == Fault.oobRead | .ok _ => false) = true := by
   decide +kernel
+-- Linux `wchar_t` has 32 bits but the library treats every unit as a UTF-16 code unit: a native wide literal above
+-- U+FFFF (`L"\\U0001F600"`, one unit 0x1F600) takes the 3-byte branch with a truncated lead byte — in bounds, ill-formed
+-- output, outside the property (recorded in outside_findings.txt); the model says what the code does on this platform
+example : fromWide [0x1F600, 0] = some [0xFF, 0x98, 0x80] := by decide +kernel
 -- not part of the property, recorded: the two-byte table truncates 3-byte images (U+023F ȿ ↦ U+2C7E = E2 B1 BE)
 example : toUpperCase [0xC8, 0xBF] = some [0xE2, 0xB1] := by decide +kernel
 
